@@ -9,6 +9,7 @@ import (
 	"math/big"
 
 	"github.com/ethereum/go-ethereum/common"
+	"github.com/ethereum/go-ethereum/core"
 	ethcrypto "github.com/ethereum/go-ethereum/crypto"
 	rctypes "github.com/rigochain/rigo-go/ctrlers/types"
 )
@@ -417,6 +418,16 @@ func (g *Gen) draftEVM(kind string, h int64, sh *MState, P *DParams, price *big.
 		}
 		d := mk(rctypes.TRX_CONTRACT, k, zeroAddr, v, &rctypes.TrxPayloadContract{Data: code}, "deploy:"+ctor)
 		d.tx.Gas = gasBudget
+		if g.rng.Intn(5) == 0 {
+			// gas limit around the intrinsic gas of a creation (which is 32000 above that of a call with the same data):
+			// one below it, exactly it, or between the two; never enough to run the constructor and pay for the code
+			if ig, err := core.IntrinsicGas(code, nil, true, true, true); err == nil && ig > 32000 {
+				d.tx.Gas = []uint64{ig - 1, ig, ig - 32000, ig - 32000 + uint64(g.rng.Intn(32000)), ig + uint64(g.rng.Intn(200))}[g.rng.Intn(5)]
+				d.ok = false
+				d.label = "invalid:evm-gas-around-creation-intrinsic(deploy)"
+				return d
+			}
+		}
 		if ctor == "revert" || ctor == "invalid" {
 			d.ok = false
 			d.label = "invalid:evm-failing-constructor(deploy)"
